@@ -303,7 +303,7 @@ class Annotations(RoundTrip):
                "of arbitrary text by regular expressions is out of reach of the solver")
     stubs = RoundTrip.stubs[:2] + ["insertion order of annotations: a symbolic index chooses the permutation"]
     task_paths = 120
-    KINDS = ["cds_quals", "pfam", "asdomain", "motif", "prepeptide", "module", "generic", "codon_start"]
+    KINDS = ["cds_quals", "pfam", "asdomain", "motif", "prepeptide", "module", "generic", "codon_start", "sideloaded"]
 
     def variants(self, tier):
         out = []
@@ -459,6 +459,21 @@ class Annotations(RoundTrip):
             created = Feature(bloc, feature_type="misc_binding", created_by_antismash=True)
             rec.add_feature(created)
             rec.add_source(Source(FeatureLocation(0, n, 1), qualifiers={"organism": ["thing"], "mol_type": ["genomic DNA"]}))
+        elif kind == "sideloaded":
+            from antismash.common.secmet.features.protocluster import SideloadedProtocluster
+            from antismash.common.secmet.features.subregion import SideloadedSubRegion
+            from antismash.common.secmet.locations import CompoundLocation
+            core = build("a", "s", v)
+            if var["gshape"] == "o":
+                extent = CompoundLocation([FeatureLocation(v["as0"], n, 1), FeatureLocation(0, v["be0"], 1)])
+            else:
+                extent = FeatureLocation(v["as0"], v["be0"], 1)
+            rec.add_protocluster(SideloadedProtocluster(core, extent, "external_tool", "custom_product", neighbourhood_range=v["ps"],
+                                                        extra_qualifiers={"score": ["12.5"], "colour": ["red", "blue"]}))
+            rec.add_subregion(SideloadedSubRegion(build("b", "s", v), "other_tool", label="marker",
+                                                  extra_qualifiers={"evidence": ["x"]}))
+            rec.create_candidate_clusters()
+            rec.create_regions()
         elif kind == "codon_start":
             # such a gene only ever arrives through from_biopython; its stored location is shifted and shifted back on output
             from Bio.SeqFeature import SeqFeature
@@ -543,6 +558,10 @@ def internal(rec):
         rows["gene " + gene.get_name()] = (str(gene.gene_name), canon_loc(gene.location), notes(gene))
     for feat in list(rec.get_generics()) + list(rec.get_sources()):
         rows["generic " + feat.type] = (canon_loc(feat.location), notes(feat), feat.created_by_antismash)
+    if rec.get_protoclusters() or rec.get_subregions():
+        rows["areas"] = summary(rec)
+        rows["area details"] = [(type(a).__name__, a.tool, sorted(getattr(a, "extra_qualifiers", {}).items()))
+                                for a in list(rec.get_protoclusters()) + list(rec.get_subregions())]
     return rows
 
 
